@@ -47,6 +47,8 @@ static void flush_stats(void)
 #undef X
 }
 #define ST(n) (st_##n++)
+/* samples come from the first shard of every step only, so the (few) evidence samples span all steps */
+#define SAMPLE_HERE (vh_opt.first == 0 || vh_opt.only >= 0)
 
 
 /* vh_viol prints at most 200 lines per process; a frequent (known) key must not crowd out a new one:
@@ -537,7 +539,7 @@ static void check_input(const char *s, const struct comps *gen, int gen_has_lite
 	}
 	if ((accepted_mask & 0xaa) && !(accepted_mask & 0x55)) ST(nonconf_only_accept);
 	if (accepted_mask && n >= 3) vh_distinct(vh_hash_bytes(28, s, n));
-	{ char es[2 * MAXIN + 32]; vh_sample(3, "{\"input\":\"%s\",\"accepted_by_flagsets\":\"0x%02x\"}", vh_jesc(es, sizeof(es), s, n), accepted_mask); }
+	{ char es[2 * MAXIN + 32]; if (SAMPLE_HERE) vh_sample(2, "{\"input\":\"%s\",\"accepted_by_flagsets\":\"0x%02x\"}", vh_jesc(es, sizeof(es), s, n), accepted_mask); }
 }
 
 /* ------------------------------------------------------------------ generators */
@@ -948,7 +950,7 @@ static void case_setter(vh_rng *r)
 				comps_free(&g2);
 				evhttp_uri_free(u2);
 			}
-			vh_sample(2, "{\"setter_built\":\"%s\",\"flags\":%u}", vh_jesc(t1, sizeof(t1), j, strlen(j)), flags);
+			if (SAMPLE_HERE) vh_sample(1, "{\"setter_built\":\"%s\",\"flags\":%u}", vh_jesc(t1, sizeof(t1), j, strlen(j)), flags);
 			free(jin);
 		}
 	}
@@ -1289,7 +1291,7 @@ static void case_enc(vh_rng *r)
 	gen_bytes(r, b, &n, MAXB, 1);
 	check_encode(b, n);
 	if (n >= 2) vh_distinct(vh_hash_bytes(291, b, n));
-	vh_sample(2, "{\"encode_bytes_hex\":\"%s\",\"len\":%zu}", vh_hex(es, sizeof(es), b, n > 32 ? 32 : n), n);
+	if (SAMPLE_HERE) vh_sample(1, "{\"encode_bytes_hex\":\"%s\",\"len\":%zu}", vh_hex(es, sizeof(es), b, n > 32 ? 32 : n), n);
 	vh_stat_add("cases", 1);
 }
 static void case_dec(vh_rng *r)
@@ -1301,7 +1303,7 @@ static void case_dec(vh_rng *r)
 	else for (i = 0; i < n; i++) sb_add(&b, VH_PICK(r, DT));
 	check_decode(b.s);
 	if (strchr(b.s, '%') || strchr(b.s, '+')) vh_distinct(vh_hash_bytes(292, b.s, b.n));
-	vh_sample(2, "{\"decode_input\":\"%s\"}", vh_jesc(es, sizeof(es), b.s, b.n > 60 ? 60 : b.n));
+	if (SAMPLE_HERE) vh_sample(1, "{\"decode_input\":\"%s\"}", vh_jesc(es, sizeof(es), b.s, b.n > 60 ? 60 : b.n));
 	vh_stat_add("cases", 1);
 }
 static void case_query(vh_rng *r)
@@ -1310,7 +1312,7 @@ static void case_query(vh_rng *r)
 	gen_query(r, &b);
 	check_query(b.s, 1);
 	if (strchr(b.s, '&') || strchr(b.s, '%')) vh_distinct(vh_hash_bytes(293, b.s, b.n));
-	vh_sample(2, "{\"query\":\"%s\"}", vh_jesc(es, sizeof(es), b.s, b.n > 80 ? 80 : b.n));
+	if (SAMPLE_HERE) vh_sample(1, "{\"query\":\"%s\"}", vh_jesc(es, sizeof(es), b.s, b.n > 80 ? 80 : b.n));
 	vh_stat_add("cases", 1);
 }
 static void case_html(vh_rng *r)
@@ -1322,7 +1324,7 @@ static void case_html(vh_rng *r)
 	else for (i = 0; i < n; i++) sb_add(&b, VH_PICK(r, HT));
 	check_html(b.s);
 	if (strpbrk(b.s, "<>&\"'")) vh_distinct(vh_hash_bytes(294, b.s, b.n));
-	vh_sample(2, "{\"html\":\"%s\"}", vh_jesc(es, sizeof(es), b.s, b.n > 60 ? 60 : b.n));
+	if (SAMPLE_HERE) vh_sample(1, "{\"html\":\"%s\"}", vh_jesc(es, sizeof(es), b.s, b.n > 60 ? 60 : b.n));
 	vh_stat_add("cases", 1);
 }
 /* exhaustive: all strings of length <= n1 over a 12-symbol alphabet through the decoder, the query parser
@@ -1350,6 +1352,11 @@ static void case_xenum(long idx)
 		xenum_string(k, buf, HALPHA);
 		check_html(buf);
 		if (k > EA) vh_distinct(vh_hash_bytes(295, &k, sizeof(k)));
+		if (SAMPLE_HERE && k == 1000) {
+			char es[200], m1[32], m2[32];
+			xenum_string(k, m1, XALPHA); xenum_string(k, m2, HALPHA);
+			vh_sample(1, "{\"exhaustive_member\":\"%s\",\"and_markup_member\":\"%s\"}", m1, vh_jesc(es, sizeof(es), m2, strlen(m2)));
+		}
 		vh_stat_add("cases", 1);
 	}
 }
